@@ -188,7 +188,7 @@ struct Store {
 	idx padding() const { return static_cast<idx>(mem.size() - pos.size()); }
 };
 
-constexpr unsigned WATCHDOG_SECONDS = 30;
+constexpr unsigned WATCHDOG_SECONDS = 10;
 constexpr idx G = 8;  // guard elements before and after every storage block
 
 template<int D, std::size_t... I> auto mkext_impl(idx const* s, std::index_sequence<I...>) { return multi::extensions_t<D>{multi::iextension{s[I]}...}; }
@@ -403,6 +403,7 @@ static void run_group(std::vector<Cfg> const& cfgs, Group const& g, bool nofork)
 	std::size_t next = 0;
 	if(nofork) { for(auto const& c : cfgs) { Outcome o = run_config_any(c, g); account(c, g, o.status, o.symptom, o.rec, o.sample, o.maxerr, o.calls); } return; }
 	while(next < cfgs.size()) {
+		if(next != 0 && mc::past_deadline()) { mc::R.exhaustive = false; return; }  // only reached after a child died: do not let a tree on which everything dies or hangs overrun the deadline
 		int pfd[2]; if(pipe(pfd) != 0) { harness_bug("pipe"); }
 		int err = memfd_create("fftmc_err", 0);
 		std::fflush(stdout); std::fflush(stderr);
